@@ -138,17 +138,19 @@ Definition agrees_calls (c : ccase) : bool := agrees_calls_fl SetsFlag c.
 Definition agrees (c : ccase) : bool := agrees_fl SetsFlag c.
 
 (* the sampled case lies in the domain of the C07 theorems *)
+(* guarded appends resolved (rejected ones dropped): the schedule is made of the accepted configs *)
+Definition norm_ops (c : ccase) : list op := normalize (lastc (cs_init c)) (cs_ops c).
 Definition hyp_ok (c : ccase) : bool :=
-  let sched := cs_init c ++ appended (cs_ops c) in
-  valid sched && ops_ok (length (cs_init c)) (cs_ops c)
+  let sched := cs_init c ++ appended (norm_ops c) in
+  valid sched && ops_ok (length (cs_init c)) (norm_ops c)
   && (0 <? cs_chunk c) && forallb (fun e => dur e mod cs_chunk c =? 0) (tl sched).
 
-(* and there the keyless trace is the documented lifecycle (an instance of C07_trace_is_lifecycle,
-   re-evaluated on the sampled case) *)
+(* and there the keyless trace is the documented lifecycle (an instance of
+   C07_trace_is_lifecycle_guarded, re-evaluated on the sampled case) *)
 Definition spec_agrees (c : ccase) : bool :=
   match run (mkP (cs_chunk c) (cs_needs c) SetsFlag) (cs_init c) (cs_ops c) with
   | Ok g =>
-      let sched := cs_init c ++ appended (cs_ops c) in
+      let sched := cs_init c ++ appended (norm_ops c) in
       Nat.eqb (length (calls g))
               (length (spec_calls (length (cs_needs c)) (existsb (fun b => b) (cs_needs c)) sched))
       && rows_eqb (map (fun c => call_row c 0) (calls g))
@@ -166,6 +168,9 @@ Definition model_paths (c : ccase) : list (list Z) :=
   | Ok g => flat_path (c_key (g_core g)) :: map (fun kc => compress (c_key (g_core g)) (snd kc)) (trace g)
   | Err _ => []
   end.
+
+(* the guarded appends of the case that the model rejects *)
+Definition rejected_of (c : ccase) : list econf := rejected (lastc (cs_init c)) (cs_ops c).
 
 (* diagnostics: which variant / which part agrees:
    [calls SetsFlag; keys SetsFlag; calls NeverSets; keys NeverSets; hyp_ok; spec_agrees] *)
